@@ -161,14 +161,22 @@ def run_variant(unit, variant, gen_c, workdir, prelude, solver='kissat', extra_d
         m = re.search(r'#error extraction broke: (.*)', out)
         raise Undecided('extraction-broke', m.group(1) if m else 'goto-cc failed (the extracted text no longer compiles as C):\n' + out[-3000:])
     if meta.get('mode', 'dfcc') == 'dfcc':
-        cmd = ['goto-instrument', '--dfcc', entry, '--enforce-contract', variant.get('enforce', meta.get('enforce'))]
-        for r in meta.get('replace', []) + variant.get('replace', []):
-            cmd += ['--replace-call-with-contract', r]
-        if meta.get('loop_contracts', True):
-            cmd += ['--apply-loop-contracts']
-        cmd += [a, b]
+        repl = list(meta.get('replace', []) + variant.get('replace', []))
+        while True:
+            cmd = ['goto-instrument', '--dfcc', entry, '--enforce-contract', variant.get('enforce', meta.get('enforce'))]
+            for r in repl:
+                cmd += ['--replace-call-with-contract', r]
+            if meta.get('loop_contracts', True):
+                cmd += ['--apply-loop-contracts']
+            cmd += [a, b]
+            rc, out, _ = sh(cmd, 300, mem, workdir)
+            # a callee that the (possibly edited) body no longer calls cannot be replaced: drop it and retry
+            mm = re.search(r"Function to replace '(\w+)' not found", out)
+            if rc != 0 and mm and mm.group(1) in repl:
+                repl.remove(mm.group(1))
+                continue
+            break
         cmds.append(' '.join(cmd))
-        rc, out, _ = sh(cmd, 300, mem, workdir)
         if rc != 0:
             raise Undecided('tool-error', 'goto-instrument failed:\n' + out[-3000:])
         if 'not side-effect free' in out or 'ignoring' in out.lower() and 'loop' in out.lower():
